@@ -88,7 +88,8 @@ def run(run, tier, replay=None):
                 "(tree listing + bytes compared with the Fs.v model and with a fresh generation); non-trivial = step changes or must not change a non-empty tree; distinct by hash of the "
                 "(flavour, history prefix). Plus hostile titles/tags/names generated with sentinel files around the output directory." % maxlen)
     terms, meta_info = [], []
-    for meta in metas:
+    # quick: the other two flavours get the fixed history only (a generation, user files everywhere, a regeneration of ANOTHER document)
+    for meta, nh_ in [(m, nhist) for m in metas] + ([("pdm", 1), ("setup", 1)] if tier == "quick" else []):
         recs = [doc_record(d, meta) for d in D]
         # fresh trees per doc
         fresh = []
@@ -97,7 +98,7 @@ def run(run, tier, replay=None):
                 fresh.append(g.files())
         pkg = recs[0][2]
         pp = "" if meta == "none" else pkg + "/"
-        for hi in range(nhist):
+        for hi in range(nh_):
             n = rng.randint(2, maxlen)
             steps = [("gen", rng.randrange(len(D)), True)]
             for _ in range(n - 1):
